@@ -3,7 +3,7 @@ import Vgi.Model.AccessLogEmit
 Line protocol for C39 (one hook per case):
 
   hook <rateBits|none> <thr|-> <q|sync>   construct the hook; SetSampleRate / SetAsync
-  emit <id> <status> <sid> <rid> [extras] AccessLogHook.emit; field tokens: - | n | x<hex>;
+  emit <id> <status> <sid> <rid> [extras] AccessLogHook.emit; field tokens: - | n | t | f | i<int> | x<hex> (everything but x… is a non-string);
                                           extras: - | x<key>:<field>,… (every other key of the record)
   prime                                   harness primer: enqueue record 0 straight into the queue
   w                                       the writer's current write returns (then it eagerly
@@ -27,7 +27,8 @@ structure St where
 
 def parseField (s : String) : Option Field :=
   if s = "-" then some .absent
-  else if s = "n" then some .other
+  else if s = "n" || s = "t" || s = "f" then some .other          -- number 7 / true / false
+  else if s.startsWith "i" && (s.drop 1).toInt?.isSome then some .other   -- an integer
   else (parseHexArg s).map Field.str
 
 def parseExtra (s : String) : Option (Bytes × Field) :=
